@@ -32,7 +32,9 @@ RULE = (
     "all 10x10 activity-id pairs with seeded addresses), confirmed / confirmed-last rate 1/2, 3/4, 1 blocks and HRNP "
     "(7 opcodes; DATA around library-serialised, round-trip-stable HDAP payloads: captured ones and constructed "
     "RCP/TMP/LP/RRS; one class with the packet number solved so that the ones-complement sum needs a second end-around "
-    "carry); non-trivial = check value neither 0 nor all-ones; distinct by hash of the field values.  "
+    "carry), plus directed PDUs of every kind whose check value on the wire is solved to be exactly all-zero and exactly "
+    "all-ones (HRNP, every opcode: 0x0000, 0x0001, 0xFFFE and double carry; 0xFFFF is unreachable); non-trivial = check "
+    "value neither 0 nor all-ones, or a directed extreme-value PDU; distinct by hash of the field values.  "
     "(b) words_*: complete enumeration of the 2^20 / 2^16 received words; every word is a distinct case.  "
     "(c) fault_*: per PDU kind, seeded random PDUs plus PDUs *constructed* (window of check-width message bits solved on "
     "the reference) to carry a check value of weight 1..2; per PDU the error patterns of the code's guaranteed detection "
@@ -40,7 +42,8 @@ RULE = (
     "tier for the 96-bit PDUs), all bursts up to a tier-dependent length with every interior pattern, solid bursts of "
     "every length <= w and seeded sampled interiors for the longer ones (w = 16/8/9 from deg G, 15 for HRNP), generated "
     "in code-word order and mapped to wire positions; for confirmed last blocks additionally every 32-bit message CRC "
-    "of weight 1..2 with the pattern that zeroes it.  HRNP patterns that shorten the length field are outside the "
+    "of weight 1..2 with the pattern that zeroes it, and every single-bit fault on the directed extreme-check-value PDUs "
+    "of (a).  HRNP patterns that shorten the length field are outside the "
     "guaranteed set and counted under excluded_by_construction.  A case is (PDU fields, flipped wire positions); distinct "
     "by construction; non-trivial = the corruption was detected (indicator False or decode error), "
     "as opposed to falling into bits the PDU does not interpret (parsed fields identical)."
@@ -623,6 +626,10 @@ def _set_window(p, v):
     k = p["kind"]
     if k.startswith("dh_"):
         p["src"] = (p["src"] & 0xFF0000) | v  # wire bits 48..63
+    elif k == "pi_header":
+        d = bytearray(bytes.fromhex(p["data"]))  # octets 8..9: wire bits 64..79
+        d[8], d[9] = v >> 8, v & 0xFF
+        p["data"] = bytes(d).hex()
     elif k == "short_lc_activity":
         p["ad2"] = v  # wire bits 20..27
     else:
@@ -664,6 +671,106 @@ def gen_low_weight_check_pdu(rng, kind, last=None):
     if ref_wire(p)[1] != target:
         raise HarnessError("low-weight construction inconsistent")
     return p
+
+
+def _xor_solve(basis, need):
+    """GF(2): subset of ``basis`` (ints) whose xor is ``need``; returns the subset as a bit mask or None."""
+    piv = {}
+    for i, v in enumerate(basis):
+        m = 1 << i
+        while v:
+            h = v.bit_length() - 1
+            if h in piv:
+                v ^= piv[h][0]
+                m ^= piv[h][1]
+            else:
+                piv[h] = (v, m)
+                break
+    x, v = 0, need
+    while v:
+        h = v.bit_length() - 1
+        if h not in piv:
+            return None
+        v ^= piv[h][0]
+        x ^= piv[h][1]
+    return x
+
+
+def _reference_check_of_library_message(pdu):
+    """check value (wire bit order, as int) the *reference* computes over the message bits the library serialises"""
+    wire = serialise(pdu, build(pdu))
+    return gf2.bits_to_int(reference_check_bits(pdu, wire))
+
+
+def solve_check_value(pdu, target):
+    """Set the check-width window of message bits of a CRC-protected PDU so that the check field on the wire reads
+    ``target`` (bits in wire order).  The window maps affinely and bijectively onto the check value; the map is measured
+    on the reference CRC of the library's message bits and solved by elimination.  Returns False if unreachable."""
+    w = _check_width(pdu["kind"])
+    _set_window(pdu, 0)
+    base = _reference_check_of_library_message(pdu)
+    basis = []
+    for i in range(w):
+        _set_window(pdu, 1 << i)
+        basis.append(_reference_check_of_library_message(pdu) ^ base)
+    x = _xor_solve(basis, base ^ target)
+    if x is None:
+        return False
+    _set_window(pdu, x)
+    return _reference_check_of_library_message(pdu) == target
+
+
+def solve_hrnp_checksum(pdu, target):
+    """Choose the packet number so that the reference checksum of the datagram is ``target``; False if no packet
+    number does (0xFFFF never: the ones-complement sum of a non-zero header is never zero)."""
+    pdu["pn"] = 0
+    s0 = hrnp_sum(pdu)
+    for pn in range(1 << 16):
+        s = s0 + pn
+        while s >> 16:
+            s = (s & 0xFFFF) + (s >> 16)
+        if (~s) & 0xFFFF == target:
+            pdu["pn"] = pn
+            return True
+    return False
+
+
+def extreme_pdus(ctx: Ctx, kinds, pool):
+    """Directed PDUs whose check value ON THE WIRE is extreme: all-zero and all-ones for every CRC-protected kind
+    (data header x5, PI header, short LC, confirmed and confirmed-last rate 1/2, 3/4, 1 blocks), and for HRNP (every
+    opcode) 0x0000, 0x0001, 0xFFFE plus the double end-around-carry class.  Returns [(kind, label, target|None, pdu)];
+    deterministic in VERIF_SEED."""
+    out = []
+    per = ctx.pick(3, 8)
+    for kind in kinds:
+        rng = ctx.rng("extreme_check_values", kind)
+        if kind == "short_lc_null":
+            out.append((kind, "all_zero", 0, {"kind": kind}))  # its CRC is 0 by nature; no other value exists
+            continue
+        if kind == "hrnp":
+            for op in HRNP_OPCODES:
+                for target, label in ((0x0000, "all_zero"), (0x0001, "0x0001"), (0xFFFE, "0xfffe")):
+                    for _ in range(per if op == "DATA" else max(1, per - 1)):
+                        p = gen_pdu(rng, "hrnp", pool)
+                        p["opcode"], p["hdap"] = op, (rng.choice(pool) if op == "DATA" else "")
+                        if solve_hrnp_checksum(p, target):
+                            out.append((kind, label, target, p))
+            for _ in range(2 * per):
+                p = gen_pdu(rng, "hrnp", pool)
+                p["opcode"], p["hdap"] = "DATA", rng.choice(pool)
+                out.append((kind, "double_end_around_carry", None, hrnp_double_carry(p)))
+            continue
+        w = _check_width(kind)
+        variants = [False, True] if kind in RATE_KINDS else [None]
+        for last in variants:
+            for target, label in ((0, "all_zero"), ((1 << w) - 1, "all_ones")):
+                for _ in range(per):
+                    p = gen_pdu(rng, kind, last=last) if kind in RATE_KINDS else gen_pdu(rng, kind)
+                    if solve_check_value(p, target):
+                        out.append((kind, label, target, p))
+                    else:
+                        ctx.tally.excluded[f"extreme_check_value_unreachable:{kind}:{label}"] += 1
+    return out
 
 
 def gen_low_weight_checksum_hrnp(rng, pool):
@@ -976,6 +1083,13 @@ def drv_rt_pdu(ctx: Ctx, sub: SubCheck):
 
     ctx.shards(work, ALL_KINDS)
 
+    # directed: extreme check values on the wire (all-zero / all-ones; HRNP 0x0000, 0x0001, 0xFFFE, double carry), both tiers
+    for kind, label, target, case in extreme_pdus(ctx, ALL_KINDS, pool):
+        chk, ok = _run(ctx, sub.name, oracle_rt_pdu, case, ctx.tally)
+        ctx.tally.case(sub.name, key=case, nontrivial=True, cls=f"extreme_check_value:{kind}:{label}")
+        if chk is not None and target is not None and chk != target:
+            raise HarnessError(f"directed extreme check value missed: {kind} {label} wanted {target:#x} got {chk:#x} for {case}")
+
     # short LC: every pair of activity ids (10 x 10) with seeded random addresses, always
     rng = ctx.rng("short_lc_pairs")
     for a1 in ACTIVITY_DEFINED:
@@ -1096,6 +1210,12 @@ def make_fault_driver(group):
                     items.append(spec + ("crc32_zeroing", 0, 0))
                     plan_note[f"{kind}:crc32z:{j}"] = {"pdu_class": "low_weight_crc32", "code_bits": n, "enumerated_patterns": 528,
                                                        "note": "528 PDUs (every crc32 of weight 1..2) x the one pattern that zeroes the crc32 field"}
+        # the directed extreme-check-value PDUs of rt_pdu, under every single-bit fault
+        for j, (kind, label, target, pdu) in enumerate(extreme_pdus(ctx, kinds, pool)):
+            n = expected_wire_bits(pdu)
+            if n is None:
+                n = len(serialise(pdu, build(pdu)))
+            items.append((kind, f"extreme_check_value:{label}", pdu, n, 1, 0, f"{kind}:extreme:{j}", 0, 0, 0, False, "weight_1_only", 0, 0))
         ctx.tally.extra.setdefault("fault_plan", {}).update(plan_note)
 
         def work(it, t: Tally):
@@ -1110,6 +1230,8 @@ def make_fault_driver(group):
                         for b in bits:
                             v |= 1 << (31 - b)
                         cases.append(("crc32_zeroing", dict(pdu, crc32=v), [n - 32 + b for b in bits]))
+            elif part == "weight_1_only":
+                cases = [("weight_1", pdu, [layout[i]]) for i in range(n)]
             else:
                 if part == "complete":
                     pats = patterns_complete(n, t_all, w, full_burst, all_w3)[lo:hi]
